@@ -221,13 +221,25 @@ def RamseyWitnessFormula(G, k, s, symbreak=True, formula_class=CNF):
     maybeclique = F.new_variable('C')
 
     N = G.order()
-    s = F.new_mapping(k, N, label='s_{{{},{}}}')
-    F.force_complete_mapping(s)
+    # A clique witness has k elements, an independent set has s: the
+    # mapping has as many indices as the larger of the two needs.
+    isize = s
+    m = max(k, isize)
+    s = F.new_mapping(m, N, label='s_{{{},{}}}')
+    # Indices needed by both kinds of witness are always mapped, the
+    # others only when the witness is of the kind that needs them.
+    for i in s.domain():
+        if i <= min(k, isize):
+            F.add_clause(list(s(i, None)))
+        elif k > isize:
+            F.add_clause([-maybeclique] + list(s(i, None)))
+        else:
+            F.add_clause([maybeclique] + list(s(i, None)))
     F.force_functional_mapping(s)
     F.force_injective_mapping(s)
 
     # Local consistency
-    localmaps = product(combinations(range(1,k+1), 2),
+    localmaps = product(combinations(range(1,m+1), 2),
                         combinations(range(1,N+1), 2))
 
     for (i1, i2), (j1, j2) in localmaps:
@@ -235,15 +247,15 @@ def RamseyWitnessFormula(G, k, s, symbreak=True, formula_class=CNF):
         # check if this mapping is compatible
         edge = G.has_edge(j1, j2)
         # increasing map
-        if not edge:
+        if not edge and i2 <= k:
             F.add_clause([-maybeclique, -s(i1, j1), -s(i2, j2)])
-        else:
+        elif edge and i2 <= isize:
             F.add_clause([maybeclique, -s(i1, j1), -s(i2, j2)])
         # decreasing map
         if symbreak:
             F.add_clause([-s(i1, j2), -s(i2, j1)])
-        elif not edge:
+        elif not edge and i2 <= k:
             F.add_clause([-maybeclique, -s(i1, j2), -s(i2, j1)])
-        else:
+        elif edge and i2 <= isize:
             F.add_clause([maybeclique, -s(i1, j2), -s(i2, j1)])
     return F
